@@ -181,6 +181,8 @@ pub struct ModelOut {
     pub server_cancelled: Vec<String>,
     /// a second acceptable ending where two clauses of the statement apply at once
     pub alt: Option<End>,
+    /// channels whose content is still outstanding when the sequence ends
+    pub mid_content: BTreeSet<u16>,
 }
 
 /// Reference model. Session: channels 1 and 2 open, consumer "ct1" on channel 1,
@@ -200,6 +202,7 @@ pub fn model(frames: &[F]) -> ModelOut {
         lenient: false,
         server_cancelled: vec![],
         alt: None,
+        mid_content: BTreeSet::new(),
     };
     let mut early_fixed = false;
     let fu = || End::Fatal("FrameUnexpected".into());
@@ -224,11 +227,16 @@ pub fn model(frames: &[F]) -> ModelOut {
             end = Some(End::ClientException(540));
             if !open.contains(&ch) {
                 out.alt = Some(End::Fatal(format!("ReceivedFrameWithBogusChannelId({})", ch)));
+            } else if coll.get(&ch).map(|c| *c != Coll::Idle).unwrap_or(false) {
+                // also "a new method while content is outstanding"
+                out.alt = Some(fu());
             }
         } else if let F::ClientOnly { .. } = f {
             end = Some(End::ClientException(530));
             if !open.contains(&ch) {
                 out.alt = Some(End::Fatal(format!("ReceivedFrameWithBogusChannelId({})", ch)));
+            } else if coll.get(&ch).map(|c| *c != Coll::Idle).unwrap_or(false) {
+                out.alt = Some(fu());
             }
         } else if !open.contains(&ch) {
             if let F::ChanCloseOk { .. } = f {
@@ -239,6 +247,15 @@ pub fn model(frames: &[F]) -> ModelOut {
             }
         } else {
             let st = coll.entry(ch).or_insert(Coll::Idle).clone();
+            let content_frame = matches!(f, F::Header { .. } | F::Body { .. } | F::Deliver { .. } | F::GetOk { .. } | F::Return { .. });
+            let closes = matches!(f, F::ChanClose { .. } | F::ChanCloseOk { .. });
+            if st != Coll::Idle && !content_frame && !closes {
+                // "a new method while content is outstanding": any method but the channel's
+                // own close (a server may close a channel with content half sent, C09)
+                out.end = fu();
+                out.end_at = Some(i);
+                break;
+            }
             match f {
                 F::Deliver { tag, dtag, .. } => {
                     if st != Coll::Idle {
@@ -335,6 +352,7 @@ pub fn model(frames: &[F]) -> ModelOut {
     if !early_fixed {
         out.deliveries_early = out.deliveries_late.len();
     }
+    out.mid_content = coll.iter().filter(|(_, c)| **c != Coll::Idle).map(|(ch, _)| *ch).collect();
     out
 }
 
@@ -579,7 +597,13 @@ pub fn run_seq(frames: &[F], cut: u8, res: &mut CaseResult) {
         }
     }
     // ---- end of the connection
-    drop(cons);
+    if m.mid_content.contains(&1) {
+        // a cancel would be answered in the middle of the outstanding content, which would
+        // be one more violation, of the scenario's own making: the channel is just closed
+        std::mem::forget(cons);
+    } else {
+        drop(cons);
+    }
     drop(ch1);
     drop(ch2);
     let t = run::spawn("close", move || conn.close());
